@@ -41,7 +41,7 @@ func c12Build(in c12Input) ([]mockq.Rec, refmodel.Expr) {
 	add := func(side string, as []int) {
 		for _, a := range as {
 			for _, s := range c12Times[side+strconv.Itoa(a)] {
-				data = append(data, mockq.Rec{TS: (c09Base + int64(s)) * sec, Line: "", Labels: []mockq.KV{{K: "side", V: side}, {K: "a", V: strconv.Itoa(a)}}})
+				data = append(data, mockq.Rec{TS: (c09Base + int64(s)) * sec, Line: "", Labels: []mockq.KV{{K: "side", V: side}, {K: "a", V: strconv.Itoa(a)}, {K: "b", V: "k" + strconv.Itoa(a%2)}}})
 			}
 		}
 	}
@@ -78,6 +78,23 @@ func c12Build(in c12Input) ([]mockq.Rec, refmodel.Expr) {
 		return data, &refmodel.Bin{Op: in.Op, L: &refmodel.Vec{V: in.S}, R: total("R")}
 	case "nan": // x/0 is NaN: comparisons with NaN never hold
 		return data, &refmodel.Bin{Op: in.Op, L: &refmodel.Bin{Op: "/", L: l, R: &refmodel.Lit{V: 0}}, R: &refmodel.Lit{V: in.S}}
+	case "vv2": // two grouping labels, listed in another order on each side: the same label sets all the same
+		mk := func(side string, labels ...string) refmodel.Expr {
+			return &refmodel.VecAgg{Op: "sum", Grouping: &refmodel.Grouping{Labels: labels},
+				X: &refmodel.RangeAgg{Op: "count_over_time", Sel: []refmodel.Matcher{{Label: "side", Op: "=", Value: side}}, RangeNS: 10 * sec}}
+		}
+		return data, &refmodel.Bin{Op: in.Op, L: mk("L", "a", "b"), R: mk("R", "b", "a")}
+	case "wn", "nw": // every label removed by without(): the empty label set, the same one vector(n) and sum() carry
+		wall := &refmodel.VecAgg{Op: "sum", Grouping: &refmodel.Grouping{Without: true, Labels: []string{"side", "a", "b"}},
+			X: &refmodel.RangeAgg{Op: "count_over_time", Sel: []refmodel.Matcher{{Label: "side", Op: "=", Value: "L"}}, RangeNS: 10 * sec}}
+		var other refmodel.Expr = &refmodel.Vec{V: in.S}
+		if in.S == 0 {
+			other = total("R")
+		}
+		if in.Kind == "wn" {
+			return data, &refmodel.Bin{Op: in.Op, L: wall, R: other}
+		}
+		return data, &refmodel.Bin{Op: in.Op, L: other, R: wall}
 	case "lab-v": // labelled series against vector(n): no label set is on both sides (unless the left side is empty too)
 		return data, &refmodel.Bin{Op: in.Op, L: l, R: &refmodel.Vec{V: in.S}}
 	case "v-lab":
@@ -309,6 +326,11 @@ func c12Run(r *vkit.Run) {
 					if rg {
 						c12Check(r, c12Input{L: l, R: rr, Op: op, Kind: "vv", LVar: 2, RVar: 0, Range: true})
 					}
+					c12Check(r, c12Input{L: l, R: rr, Op: op, Kind: "vv2", Range: rg})
+					for _, s := range []float64{0, 3} {
+						c12Check(r, c12Input{L: l, R: rr, Op: op, Kind: "wn", S: s, Range: rg})
+						c12Check(r, c12Input{L: l, R: rr, Op: op, Kind: "nw", S: s, Range: rg})
+					}
 				}
 				for _, op := range all {
 					for lv := 0; lv < 2; lv++ {
@@ -344,7 +366,7 @@ func c12Run(r *vkit.Run) {
 			r.State(fmt.Sprint(l, rr))
 		}
 	}
-	r.Note("bounds", "left/right vectors = sum by (a) (count_over_time({side=..}[10s])) for every pair of subsets of a in {1,2,3} (equal, overlapping, disjoint, empty), optionally shifted/scaled to reach 0, negatives and fractions; vector-scalar and scalar-vector for 12 operators x scalars {0,2,-3,0.5,0.1,0.3}; comparisons with and without the bool modifier; vector(n) against a literal on every step; labelled series against vector(n); a left side that is empty at whole steps; comparisons of operands that differ by 1e-10 or by one ulp; vector-vector for 15 operators x 6 operand variants; instant and 4-step range in which series appear, persist and disappear on either side; for the 16 pairs with >= 2 series on both sides, 6 operators x instant/range under every hash-map iteration order within 1 (thorough: 2) rotated iterations")
+	r.Note("bounds", "left/right vectors = sum by (a) (count_over_time({side=..}[10s])) for every pair of subsets of a in {1,2,3} (equal, overlapping, disjoint, empty), optionally shifted/scaled to reach 0, negatives and fractions; vector-scalar and scalar-vector for 12 operators x scalars {0,2,-3,0.5,0.1,0.3}; comparisons with and without the bool modifier; vector(n) against a literal on every step; labelled series against vector(n); two grouping labels listed in different orders on the two sides; the empty label set produced by without(all labels); a left side that is empty at whole steps; comparisons of operands that differ by 1e-10 or by one ulp; vector-vector for 15 operators x 6 operand variants; instant and 4-step range in which series appear, persist and disappear on either side; for the 16 pairs with >= 2 series on both sides, 6 operators x instant/range under every hash-map iteration order within 1 (thorough: 2) rotated iterations")
 }
 
 func c12Replay(r *vkit.Run, v vkit.Violation) *vkit.Violation {
